@@ -940,6 +940,13 @@ def gen_fn_cases(ctx, n_random):
             for dk in DKINDS:
                 for size in (rng.choice(SIZES), 10 ** 12, 0):
                     add(tool, mb, ri, 3, rand_path(rng, 2 * k + 1), size, dk)
+    # paths up to the filesystem limit: the four fields (path, size, path parity ~ 2 x path at -ri 1.0, size parity) must be found
+    # whatever their total length (the whole-file tool reads them from a 65535-byte window)
+    for (mb, ri) in [(255, 0.5), (40, 1.0), (16, 1.0)]:
+        for tool in ('hdr', 'whole'):
+            for L in (1400, 2100, 4000):
+                for dk in ('none', 'mixed'):
+                    add(tool, mb, ri, 3, rand_path(rng, L), rng.choice(SIZES), dk)
     # names starting / ending with bytes of the delimiters; the known ambiguous names
     for nm in NAMES_EDGE + NAMES_AMBIG:
         for tool in ('hdr', 'whole'):
